@@ -258,7 +258,7 @@ class World:
     def need_lens(self, nmin=3):
         m = self.model
         if not m.synced and self.opname not in ('insert', 'remove', 'read',
-                                                'add_wavelength'):
+                                                'add_wavelength', 'ckpt'):
             # after insertion / removal only the stop and primary-wavelength
             # clauses are exercised
             raise NotApplicable('placement semantics undefined')
@@ -778,6 +778,10 @@ class World:
         from optiland.optic import Optic
         self.need_lens()
         m = self.model
+        if not m.synced and (m.pickups or m.solves):
+            # pickups / solves address surfaces by index; after an insertion
+            # or removal what they mean is undefined
+            raise NotApplicable('pickups on a lens of undefined placement')
         if (m.pickups or m.solves) and self.last_applied != 'update':
             # "the same prescription" is only defined for a lens whose
             # pickups are currently satisfied: checkpoint right after update()
@@ -1488,7 +1492,8 @@ def gen_edit(ch, w, sw):
     """One edit / read operation drawn for the current model state."""
     m = w.model
     kinds = sw['kinds'] if m.synced else \
-        ['insert', 'remove', 'read', 'add_wavelength']
+        ['insert', 'remove', 'read', 'add_wavelength'] + \
+        (['ckpt'] if 'ckpt' in sw['kinds'] else [])
     if w.nested:
         kinds = [k_ for k_ in kinds if k_ in (
             'set_radius', 'set_conic', 'set_index', 'read', 'ckpt',
@@ -1737,6 +1742,15 @@ def swarm(ch, prop, cfg):
         enabled = ['ckpt'] + ch.subset(kinds, 0.5, at_least=1)
         weights = {k: ch.uniform(0.3, 2.0) for k in enabled}
         weights['ckpt'] = ch.uniform(1.0, 3.0)
+        sc = ch.side('c19-insert-remove')
+        if sc.chance(0.3):
+            # surfaces taken out of / put into the finished lens through the
+            # public surface-group API: the medium in front of a surface need
+            # no longer be the one behind its predecessor, and the reloaded
+            # lens must still be the same lens
+            enabled += ['remove', 'insert']
+            weights['remove'] = sc.uniform(0.3, 1.0)
+            weights['insert'] = sc.uniform(0.2, 0.6)
     else:
         feats = lensgen.pick_features(ch, C01_FEATS, 0.3)
         kinds = list(EDIT_KINDS)
